@@ -33,7 +33,14 @@ Inductive ev :=
 | EAgg (r : aggres)          (* the aggregate fired *)
 | ETwice.                    (* the aggregate was fired a second time (AlreadyCalledError) *)
 
-Record inp := mkinp { res : option outcome; canc : cbeh; att : bool }.
+(** [res]: the result the input has DELIVERED down its chain (None = nothing yet).  [chained]: the input had already
+    fired when it was handed to the aggregate ([called] is true) but its chain is suspended on a pending inner Deferred
+    ([succeed(x).addCallback(lambda _: inner)]); it delivers when the inner one fires, and cancel() on it is forwarded
+    to the inner one (whose canceller is [canc]).  So "not delivered" is [res = None], whatever [called] says. *)
+Record inp := mkinp { res : option outcome; canc : cbeh; att : bool; chained : bool }.
+Definition called (x : inp) : bool := chained x || match res x with Some _ => true | None => false end.
+(** an input as given to the aggregate: canceller behaviour, result if already delivered, called-but-chained *)
+Definition input : Type := cbeh * option outcome * bool.
 
 Record st := mk {
   ins : list inp;
@@ -60,10 +67,10 @@ Fixpoint set_nth {A} (i : nat) (x : A) (l : list A) : list A :=
   | y :: r, S k => y :: set_nth k x r
   end.
 
-Definition get (i : nat) (s : st) : inp := nth i (ins s) (mkinp None CNothing false).
+Definition get (i : nat) (s : st) : inp := nth i (ins s) (mkinp None CNothing false false).
 Definition upd (i : nat) (f : inp -> inp) (s : st) : st := set_ins (set_nth i (f (get i s)) (ins s)) s.
-Definition set_res (o : outcome) (x : inp) := mkinp (Some o) (canc x) (att x).
-Definition set_att (x : inp) := mkinp (res x) (canc x) true.
+Definition set_res (o : outcome) (x : inp) := mkinp (Some o) (canc x) (att x) (chained x).
+Definition set_att (x : inp) := mkinp (res x) (canc x) true (chained x).
 
 Definition n_of (s : st) : nat := length (ins s).
 
@@ -121,7 +128,8 @@ Section Fire.
     then let '(s2, o') := cb s1 i o in upd i (set_res o') s2
     else s1.
 
-  (** Deferred.cancel() on input i *)
+  (** Deferred.cancel() on input i: nothing if it has delivered its result; otherwise its canceller is called — for a
+      called-but-chained input, the cancel is forwarded to the inner Deferred and that one's canceller is called *)
   Definition cancel_input (i : nat) (s : st) : st :=
     match res (get i s) with
     | Some _ => s
@@ -176,10 +184,10 @@ Definition cb_of (k : kind) : st -> nat -> outcome -> st * outcome :=
   end.
 
 (** ---- building the aggregate over inputs some of which have already fired ---- *)
-Definition init (inputs : list (cbeh * option outcome)) : st :=
-  mk (map (fun p => mkinp (snd p) (fst p) false) inputs) (repeat None (length inputs)) 0 None [] None [] [].
+Definition init (inputs : list input) : st :=
+  mk (map (fun p : input => mkinp (snd (fst p)) (fst (fst p)) false (snd p)) inputs) (repeat None (length inputs)) 0 None [] None [] [].
 
-Definition construct (k : kind) (inputs : list (cbeh * option outcome)) : st :=
+Definition construct (k : kind) (inputs : list input) : st :=
   let s0 := init inputs in
   let s1 := match k, inputs with
             | KList false _ _, [] | KGather _, [] => fire (AList []) s0   (* empty list fires at once *)
@@ -206,7 +214,7 @@ Definition step (k : kind) (s : st) (o : op) : st :=
       end
   end.
 
-Definition run (k : kind) (inputs : list (cbeh * option outcome)) (ops : list op) : st :=
+Definition run (k : kind) (inputs : list input) (ops : list op) : st :=
   fold_left (step k) ops (construct k inputs).
 
 (** what a user callback on the aggregate sees *)
